@@ -1,6 +1,8 @@
 import CueVerif.Driver.Proto
 import CueVerif.Model.Sanitize
 import CueVerif.Model.Toposort
+import CueVerif.Model.VertexFeatures
+import CueVerif.Driver.C02Scan
 namespace CueVerif.Driver.C02
 open CueVerif CueVerif.Driver
 
@@ -11,6 +13,8 @@ open CueVerif CueVerif.Driver
   topo <fixed> <labels> <edges>  labels = "-" | l,l,…  l = i<idx> | n<typ>.<hex>; edges = "-" | a>b,…
                                  (indices into labels) → "ok l,l,…" | "panic" | "fuel"
   scc  <labels> <edges>          → "ok c;c;…" every component's labels sorted, components sorted
+  vf   <arcs> <roots>            arcs = labels; roots = r;r;…  r = id/pos/explicit/labels (pos as in `san`)
+                                 → "ok l,l,…" (the order `toposort.VertexFeatures` returns)
 -/
 
 def parsePos (s : String) : Option Sanitize.Pos :=
@@ -76,6 +80,18 @@ def parseGraph (ls es : String) : Option Toposort.Graph := do
   let edges ← if es == "-" then some [] else (es.splitOn ",").mapM parseEdge
   mkGraph labels edges
 
+def parseLabels (s : String) : Option (List Toposort.Label) :=
+  if s == "-" then some [] else (s.splitOn ",").mapM parseLabel
+
+def parseRoot (s : String) : Option Toposort.Root :=
+  match s.splitOn "/" with
+  | [i, p, e, ls] => do
+    let id ← i.toNat?
+    let pos ← parsePos p
+    let labels ← parseLabels ls
+    pure ⟨id, pos, e == "1", labels⟩
+  | _ => none
+
 def insStr (x : String) : List String → List String
   | [] => [x]
   | y :: ys => if x ≤ y then x :: y :: ys else y :: insStr x ys
@@ -104,6 +120,14 @@ def handle (ws : List String) : String :=
       let cs := (Toposort.tarjan g).map fun c => ",".intercalate (sortStr (c.map showLabel))
       "ok " ++ dash (";".intercalate (sortStr cs))
     | none => "bad-op"
-  | _ => "bad-op"
+  | ["vf", as, rs] =>
+    match parseLabels as, (rs.splitOn ";").mapM parseRoot with
+    | some arcs, some roots =>
+      match Toposort.vertexFeatures Toposort.stableSort arcs roots with
+      | .ok l => "ok " ++ dash (",".intercalate (l.map showLabel))
+      | .panic => "panic"
+      | .fuel => "fuel"
+    | _, _ => "bad-op"
+  | ws => (C02Scan.handle ws).getD "bad-op"
 
 end CueVerif.Driver.C02
